@@ -65,6 +65,9 @@ def judge(case):
         warm = traces.U.make_conditions(s3.mixture, s3.area * 3.0, s3.t0, s3.amount * 0.5, min(0.97, s3.x0 * 1.07 + 0.01), "weight",
                                         "vac" if s3.mode != "vac" else ("p", 0.3), "none" if s3.kind in traces.ISO else s3.prog)
         s3.run(steps=2, conditions=warm, dt=s3.dt * 0.5)
+        # ... and the caller's Conditions object itself is first handed to a model of ANOTHER mixture
+        s4 = traces.Setup(dict(case, mixture="H2O_iPOH" if case["mixture"] != "H2O_iPOH" else "MeOH_DMC", model="NRTL"))
+        s4.run(steps=1, conditions=s3.conditions)
         st3, pm3 = s3.run()
         if st3 != "ok":
             v.append(core.viol("C01/depends_on_earlier_run/" + setup.kind, "the run returns on fresh objects but raises %r when the same objects modelled another run first" % (pm3,)))
